@@ -4,6 +4,7 @@ import (
 	"time"
 
 	"github.com/karagenc/socket.io-go/internal/sync"
+	"github.com/karagenc/socket.io-go/internal/verifhook"
 
 	eio "github.com/karagenc/socket.io-go/engine.io"
 	eioparser "github.com/karagenc/socket.io-go/engine.io/parser"
@@ -29,11 +30,13 @@ func newPacketQueue() *packetQueue {
 }
 
 func (pq *packetQueue) poll() (packets []*eioparser.Packet, ok, closed bool) {
+	verifhook.Yield("pq.beforeGet")
 	packets = pq.get()
 	if len(packets) != 0 {
 		ok = true
 		return
 	}
+	verifhook.Yield("pq.afterGet")
 
 	select {
 	// _close takes precedence.
@@ -41,6 +44,7 @@ func (pq *packetQueue) poll() (packets []*eioparser.Packet, ok, closed bool) {
 	case <-pq._close:
 		return nil, false, true
 	case <-pq.ready:
+		verifhook.Yield("pq.woken")
 		packets = pq.get()
 		if len(packets) != 0 {
 			ok = true
@@ -71,6 +75,7 @@ func (pq *packetQueue) add(packets ...*eioparser.Packet) {
 		pq.packets = append(pq.packets, packets...)
 	}
 	pq.mu.Unlock()
+	verifhook.Yield("pq.afterAppend")
 
 	select {
 	case pq.ready <- struct{}{}:
